@@ -14,7 +14,7 @@ if ! git -C "$wt" apply "$patch"; then echo "PATCH DOES NOT APPLY"; git -C /repo
 rsync -a --exclude .git --exclude 'build' --exclude replays /verif/ "$vf/"
 for p in "$@"; do
   echo "=== $p against $(basename "$patch")"
-  ( cd "$vf" && VERIF_REPO="$wt" timeout 1500 ./check "$p" > "$vf/_out.txt" 2>&1; rc=$?; grep -a "VIOLATION\|KNOWN-FINDING" "$vf/_out.txt" | cut -c1-200; grep -a "^\[check\] $p" "$vf/_out.txt" | cut -c1-220; grep -a "broken:" "$vf/_out.txt" | head -${MUT_TAIL:-3} | cut -c1-300; echo "exit=$rc" ) || true
+  ( cd "$vf" && VERIF_REPO="$wt" timeout 2700 ./check "$p" > "$vf/_out.txt" 2>&1; rc=$?; grep -a "VIOLATION\|KNOWN-FINDING" "$vf/_out.txt" | cut -c1-200; grep -a "^\[check\] $p" "$vf/_out.txt" | cut -c1-220; grep -a "broken:" "$vf/_out.txt" | head -${MUT_TAIL:-3} | cut -c1-300; echo "exit=$rc" ) || true
 done
 git -C /repo worktree remove --force "$wt"
 rm -rf "$vf"
